@@ -571,6 +571,66 @@ def s8(rep):
     rep.floor("own-type handlers", len(handlers), 9)
 
 
+NAME_WIDE = ("ALDOR_E_ScoAssAndDef", "ALDOR_E_ScoAssAndRef")
+
+
+def s11(rep):
+    """`Cannot both assign and define x` and `... assign and reference ...` are rules about a NAME in a scope: a constant and a
+    variable of the same name are rejected whatever their declared types.  The binder records uses per signature (DeclInfo) and
+    scobindReconcileDecls folds them into per-name accumulators while it walks the signatures.  The two diagnostics must be
+    decided from those accumulators after the walk -- a test inside the loop, or on one signature's own uses, accepts
+    `k: Integer == 5; k: MachineInteger := 6`."""
+    f = common.extract("scobind.c", trees=["scobindReconcileDecls"])
+    fn = f.func("scobindReconcileDecls")
+    par = common.parents(fn["body"])
+    loops = [x for x in walk(fn["body"]) if x["k"] in ("ForStmt", "WhileStmt") and "declInfoList" in common.render(x["c"][1] if x["k"] == "ForStmt" else x["c"][0])]
+    if len(loops) != 1:
+        raise AnalysisBroken("scobindReconcileDecls: the walk over the signatures of the name was not recognised")
+    loop = loops[0]
+    inloop = set(y["id"] for y in walk(loop))
+    acc = set()
+    for x in walk(loop):
+        if x["k"] == "BinaryOperator" and x["op"] == "=":
+            l = strip(x["c"][0])
+            if l is not None and l["k"] == "DeclRefExpr":
+                acc.add(l["n"])
+    for msg in NAME_WIDE:
+        sites = []
+        for c in calls(fn["body"]):
+            if not (c.get("callee") or "").startswith("comsg"):
+                continue
+            if any(msg in (y.get("mac"), y.get("imac")) for a in c["c"][1:] for y in walk(a)):
+                sites.append(c)
+        key = "name-wide:%s" % msg[8:]
+        where = "scobind.c:%d (scobindReconcileDecls)" % fn["l"]
+        if not sites:
+            rep.violation("S11", key, where, "no diagnostic %s is raised any more" % msg)
+            continue
+        good = False
+        why = ""
+        for c in sites:
+            if c["id"] in inloop:
+                why = "the test sits inside the walk over the signatures (line %d)" % c["l"]
+                continue
+            cur, cond = c, None
+            while cur["id"] in par and cond is None:
+                p_ = par[cur["id"]]
+                if p_["k"] == "IfStmt" and any(y is cur for y in walk(p_["c"][1])):
+                    cond = p_["c"][0]
+                cur = p_
+            names = set(y["n"] for y in walk(cond) if y["k"] == "DeclRefExpr") if cond is not None else set()
+            if len(names & acc) >= 2 and not (names - acc):
+                good = True
+            else:
+                why = "its condition `%s` is not a test of two per-name accumulators (%s)" % (common.render(cond)[:60] if cond else "none", sorted(acc))
+        if good:
+            rep.ok("S11", key)
+        else:
+            rep.violation("S11", key, "scobind.c:%d (scobindReconcileDecls)" % sites[0]["l"],
+                          "%s must be decided for the name from what the whole walk over its signatures has found; %s: a "
+                          "constant and an assignment whose declared types differ syntactically are then accepted" % (msg, why))
+
+
 def digest(f):
     return {"s1": s1_digest(f), "s45": s45_digest(f)}
 
@@ -585,6 +645,7 @@ def run(tier, only=None):
     s6(rep)
     s7(rep)
     s8(rep)
+    s11(rep)
     from . import variant_dispatch
     variant_dispatch.report_absyn(rep, "S10", ["ti_bup.c", "ti_tdn.c", "ti_sef.c", "scobind.c", "abcheck.c"], 180)
     from . import selfcompare
